@@ -19,7 +19,7 @@ OPTIONAL_BUILDS = ["asan"]
 EXHAUSTIVE = {"quick": "the reachable value graph of the Lua environment in each of 10 BLOCKWATCH_LUA_MODE settings",
               "thorough": "the reachable value graph of the Lua environment in each of 10 BLOCKWATCH_LUA_MODE settings (release and ASan builds)"}
 RULE = ("For each BLOCKWATCH_LUA_MODE in {unset, sandboxed, safe, unsafe, '', SAFE, Unsafe, ' safe', garbage, sandbox}: a probe "
-        "script run by the real binary enumerates the transitive closure of values reachable from _G, the string "
+        "script run by the real binary enumerates (once while its top-level chunk runs and once inside validate()) the transitive closure of values reachable from _G, the string "
         "metatable and getmetatable of every reached value (tables, functions, userdata, threads) and the set of "
         "reachable paths is compared with the mode's allow-list; a battery of ~38 concrete escape attempts (io, os, "
         "require, package.loadlib, C module on cpath, dofile, loadfile, load of text and bytecode, debug, metatable and "
@@ -140,15 +140,21 @@ def _probe(ctx, job, value, cls, fl):
                      witness=dict(wit, observed=res.brief(2000)))]
     out = []
     nodes = {}
+    phase = ""
     for line in msg.split("\n")[1:]:
+        if line == "@@LOADTIME":
+            phase = "@load:"      # the same graph observed while the top-level chunk ran
+            continue
         path, _, typ = line.rpartition("=")
-        nodes[path] = typ
+        nodes[phase + path] = typ
     edges = len(nodes)
     present = {p.split(".")[1] for p in nodes if p.startswith("_G.") and len(p.split(".")) >= 2}
-    for path, typ in sorted(nodes.items()):
+    for fullpath, typ in sorted(nodes.items()):
         if typ.startswith("alias:"):
             continue    # second path to a value that is judged under its first path
-        key = h(["probe", job["mode"], fl, path])
+        at_load = fullpath.startswith("@load:")
+        path = fullpath[6:] if at_load else fullpath
+        key = h(["probe", job["mode"], fl, fullpath])
         nontrivial = typ == "function" or path.count(".") == 1
         sets = {"mode": [job["mode"]], "mode_class_globals": ["%s:%s" % (cls, path.split(".")[1])] if path.startswith("_G.") and path.count(".") == 1 else []}
         if allowed_path(path, cls):
@@ -156,9 +162,9 @@ def _probe(ctx, job, value, cls, fl):
                             counters={"reachable_nodes": 1, "reachable_functions": 1 if typ == "function" else 0}))
         else:
             out.append(Case(VIOLATED, key=key, nontrivial=True, evals=0, sets=sets,
-                            sig="C17/reachable/%s/%s" % (cls, path),
-                            summary="BLOCKWATCH_LUA_MODE=%r (%s build): %s (%s) is reachable from the script but not in the %s allow-list" % (
-                                value, fl, path, typ, cls),
+                            sig="C17/reachable%s/%s/%s" % ("-at-load-time" if at_load else "", cls, path),
+                            summary="BLOCKWATCH_LUA_MODE=%r (%s build): %s (%s) is reachable from the script%s but not in the %s allow-list" % (
+                                value, fl, path, typ, " while its top-level chunk runs" if at_load else "", cls),
                             witness=dict(wit, path=path, type=typ, all_top_level=sorted(present))))
     # the mode must also *add* what the statement says it adds
     need = set()
@@ -205,14 +211,15 @@ def _libm():
     return c[0] if c else "/nonexistent/libm.so.6"
 
 
-BOOL_FALSE_DEFAULT = {"load_text_io", "load_text_os", "load_bytecode", "load_env_escape", "rawget_io", "rawget_os",
+BOOL_FALSE_DEFAULT = {"loadtime_package", "load_text_io", "load_text_os", "load_bytecode", "load_env_escape", "rawget_io", "rawget_os",
                       "rawget_debug", "rawget_package", "stringmt_foreign"}
 MUST_BLOCK_DEFAULT = {"io_open_read", "io_open_write", "io_lines", "io_popen", "os_execute", "os_getenv", "os_remove", "os_rename",
                       "os_tmpname", "os_time", "require_io", "require_os", "package_loaded_io", "package_loadlib",
                       "package_loadlib_sym", "require_cmod", "require_luamod", "dofile", "loadfile", "debug_getregistry",
-                      "debug_getinfo", "debug_via_registry_io", "coroutine_io", "coroutine_dofile", "pcall_require", "searchers"}
+                      "debug_getinfo", "debug_via_registry_io", "coroutine_io", "coroutine_dofile", "pcall_require", "searchers",
+                      "loadtime_dofile", "loadtime_loadfile", "loadtime_io", "loadtime_os", "loadtime_require", "loadtime_debug"}
 NATIVE = {"package_loadlib", "package_loadlib_sym", "require_cmod"}
-DEBUG = {"debug_getregistry", "debug_getinfo", "debug_via_registry_io", "pcall_require"}
+DEBUG = {"debug_getregistry", "debug_getinfo", "debug_via_registry_io", "pcall_require", "loadtime_debug"}
 
 
 def _battery(ctx, job, value, cls, fl):
@@ -270,7 +277,8 @@ def _battery(ctx, job, value, cls, fl):
             if cls == "unsafe" and not has:
                 return "debug facility missing in unsafe mode (%s)" % val[:80]
             return None
-        if name in ("io_open_read", "os_getenv", "require_luamod", "dofile", "loadfile", "rawget_io", "rawget_os", "rawget_package"):
+        if name in ("io_open_read", "os_getenv", "require_luamod", "dofile", "loadfile", "rawget_io", "rawget_os", "rawget_package",
+                    "loadtime_dofile", "loadtime_io", "loadtime_os"):
             has = ok and val.split(",")[0] not in ("false", "nil")
             if not has:
                 return "%s should work in %s mode but did not (%s)" % (name, cls, val[:80])
